@@ -1,4 +1,5 @@
 import BadgerModel.Mvcc
+import BadgerProofs.Lemmas.Txn
 /-!
 # C04 — a read-write transaction sees its own pending writes; nobody else does.
 (Get part. The iterator overlay is `C04_iter_pending_first`: pending writes are source 0 of
@@ -54,24 +55,16 @@ theorem C04_modify_isolated (d : Db) (id : Nat) (e : Ent) :
     (d.modify id e).1.lsm = d.lsm ∧ (d.modify id e).1.nextTs = d.nextTs ∧
     (d.modify id e).1.committed = d.committed ∧
     ∀ id', id' ≠ id → (d.modify id e).1.findTxn id' = d.findTxn id' := by
-  unfold Db.modify
   cases h : d.findTxn id with
-  | none => simp
+  | none => simp [modify_none e h]
   | some t =>
-    simp only
-    repeat' split
-    all_goals simp [Db.setTxn, Db.findTxn]
-    intro id' hne
-    have : (t.id == id') = false := by
-      have hid : t.id = id := by
-        have := List.find?_some h; simpa using this
-      simp [hid]; exact fun h => hne h.symm
-    simp [this, List.find?_filter]
-    congr 1
-    funext x
-    by_cases hx : x.id = id' <;> simp [hx]
-    · intro h'; exact hne (h'.symm ▸ (by have := List.find?_some h; simpa using this)).symm |> False.elim
-    
+    rcases modify_shape e h with h1 | ⟨t', hid, h1⟩
+    · simp [h1]
+    · rw [h1]
+      refine ⟨rfl, rfl, rfl, ?_⟩
+      intro id' hne
+      exact findTxn_setTxn_ne d t' id' (by rw [hid]; exact hne)
+
 -- non-vacuity: a concrete transaction with a pending write over a snapshot value
 example :
     let d0 := Db.init { maxBatchCount := 100, maxBatchSize := 100000 } 0
